@@ -2,7 +2,7 @@
    End-Of-Caption:  ENM RCL rows EDM EOC  (control codes single or doubled).  Definitions only.
    `emit_load_w` is what the harness emits for the layout "edm-inline" (request 506). *)
 From Coq Require Import List ZArith.
-From PV Require Import lib.Sx lib.Str lib.Result spec.Spec608 spec.SpecScc05.
+From PV Require Import lib.Sx lib.Str lib.Result model.GenScc model.SccDecoder spec.Spec608 spec.SpecScc05.
 Import ListNotations.
 Open Scope Z_scope.
 
@@ -11,3 +11,8 @@ Definition load_body (d : bool) (l : load) : list Z :=
   ctl d (ctrl_word 46) ++ ctl d (ctrl_word 32) ++ flat_map (emit_row d) l.
 Definition emit_load_w (d : bool) (l : load) : list Z :=
   load_body d l ++ ctl d (ctrl_word 44) ++ ctl d (ctrl_word 47).
+
+(* wave 8: a "quiet" word: any word but RDC, RU2, RU3, RU4, EOC, CR, EDM (in pop-on mode such a word neither reads nor writes
+   the display side of the reader state: proofs/SccInlineEdmFacts.frame_tw) *)
+Definition quiet (w : Z) : bool :=
+  negb ((w =? w_rdc) || (w =? w_ru2) || (w =? w_ru3) || (w =? w_ru4) || (w =? w_eoc) || (w =? w_cr) || (w =? w_edm)).
